@@ -991,7 +991,25 @@ def _collect_lets(body):
                         break
                     k += 1
                 if eq is not None and end is not None:
-                    lets.append((name, [x.text for x in body[eq + 1:end] if x.sig()]))
+                    init = [x.text for x in body[eq + 1:end] if x.sig()]
+                    # a turbofish (`HashSet::<usize>::new()`) does not hide the path from a placeholder written without it
+                    bare, q = [], 0
+                    while q < len(init):
+                        if init[q] == '::' and q + 1 < len(init) and init[q + 1] == '<':
+                            d2, q2 = 0, q + 1
+                            while q2 < len(init):
+                                if init[q2] == '<':
+                                    d2 += 1
+                                elif init[q2] == '>':
+                                    d2 -= 1
+                                    if d2 == 0:
+                                        break
+                                q2 += 1
+                            q = q2 + 1
+                            continue
+                        bare.append(init[q])
+                        q += 1
+                    lets.append((name, init if bare == init else init + ['\x00'] + bare))
         i += 1
     return lets
 
